@@ -167,6 +167,18 @@ fn main() {
                 }
             }
         }
+        "fftscratch" => {
+            // debugging aid: inverse real FFT lengths (2 * block) whose scratch buffer is not empty
+            let mut planner = realfft::RealFftPlanner::<f64>::new();
+            let mut v = Vec::new();
+            for n in 1..=600usize {
+                let ifft = planner.plan_fft_inverse(2 * n);
+                if ifft.get_scratch_len() > 0 {
+                    v.push(n);
+                }
+            }
+            println!("blocks with non-empty inverse scratch: {:?}", v);
+        }
         "items" => {
             let check = find(&args[2]).unwrap_or_else(|| std::process::exit(2));
             let tier = Tier::parse(&args[3]).unwrap_or_else(|| usage());
